@@ -26,6 +26,49 @@ type c20Step struct {
 	Tx    []sim.Call `json:"tx,omitempty"`
 	Fail  bool       `json:"fail,omitempty"`  // the transaction body returns an error at the end
 	Yield int        `json:"yield,omitempty"` // Gosched calls before the step
+	// Pair: a transaction of two calls that belong together (see c20PairCalls); ReadAll: one read of the whole
+	// state (ToJSON), which has to show both calls of every pair or neither
+	Pair    string `json:"pair,omitempty"`
+	ReadAll bool   `json:"read_all,omitempty"`
+}
+
+// c20PairCalls are the two calls of a "pair" transaction. No other call of a workload touches what they
+// touch, so a state in which only one of them shows is a transaction seen half-applied:
+// counter +1e6 / -1e6 (every other delta is tiny); map and document: the same tag under "p" and "q";
+// list: insert a marked element at the head and delete the head again.
+func c20PairCalls(kind sim.Kind, tag string) []sim.Call {
+	switch kind {
+	case sim.Counter:
+		return []sim.Call{{M: "IncreaseBy", Vals: []sim.Val{sim.I(1000000)}}, {M: "IncreaseBy", Vals: []sim.Val{sim.I(-1000000)}}}
+	case sim.Map:
+		return []sim.Call{{M: "Put", Key: "p", Vals: []sim.Val{sim.S(tag)}}, {M: "Put", Key: "q", Vals: []sim.Val{sim.S(tag)}}}
+	case sim.List:
+		return []sim.Call{{M: "Insert", Pos: 0, Vals: []sim.Val{sim.S("PAIR:" + tag)}}, {M: "Delete", Pos: 0}}
+	default:
+		return []sim.Call{{M: "PutToObject", Key: "p", Vals: []sim.Val{sim.S(tag)}}, {M: "PutToObject", Key: "q", Vals: []sim.Val{sim.S(tag)}}}
+	}
+}
+
+// c20HalfApplied inspects one read of the whole state.
+func c20HalfApplied(kind sim.Kind, v interface{}) string {
+	b, _ := json.Marshal(v)
+	switch kind {
+	case sim.Counter:
+		var n int64
+		if json.Unmarshal(b, &n) == nil && (n > 500000 || n < -500000) {
+			return fmt.Sprintf("the counter read %d: the first half of a (+1000000, -1000000) transaction without the second", n)
+		}
+	case sim.List:
+		if strings.Contains(string(b), "PAIR:") {
+			return fmt.Sprintf("the list read %s: it shows the element a transaction inserts and deletes again", b)
+		}
+	default:
+		var m map[string]interface{}
+		if json.Unmarshal(b, &m) == nil && fmt.Sprint(m["p"]) != fmt.Sprint(m["q"]) {
+			return fmt.Sprintf("read p=%v q=%v: every transaction that writes one writes the same value to the other", m["p"], m["q"])
+		}
+	}
+	return ""
 }
 
 type c20Workload struct {
@@ -106,7 +149,15 @@ func c20Gen(rt *rapid.T, kind sim.Kind) c20Workload {
 		for j := 0; j < n; j++ {
 			l := fmt.Sprintf("g%d.s%d", i, j)
 			st := c20Step{Yield: rapid.IntRange(0, 3).Draw(rt, l+".y")}
-			if rapid.IntRange(0, 5).Draw(rt, l+".tx") == 0 {
+			if x := rapid.IntRange(0, 9).Draw(rt, l+".pair"); x < 2 && !isOpen("S26") {
+				if x == 0 {
+					cnt++
+					st.Pair = fmt.Sprintf("g%d.%d", i, cnt)
+					st.Fail = rapid.IntRange(0, 4).Draw(rt, l+".fail") == 0
+				} else {
+					st.ReadAll = true
+				}
+			} else if rapid.IntRange(0, 5).Draw(rt, l+".tx") == 0 {
 				k := rapid.IntRange(1, 4).Draw(rt, l+".txn")
 				for x := 0; x < k; x++ {
 					st.Tx = append(st.Tx, c20GenCall(rt, kind, fmt.Sprintf("%s.c%d", l, x), i, &cnt))
@@ -142,6 +193,8 @@ type c20Outcome struct {
 	overlap     int32
 	txOverlap   int32
 	remoteUnits int
+	pairs       int64
+	half        []string // reads that showed a half-applied transaction
 }
 
 // c20Run executes a workload with real goroutines.
@@ -220,6 +273,22 @@ func c20Run(wl c20Workload) (*sim.World, *c20Outcome) {
 			for _, st := range script {
 				for y := 0; y < st.Yield; y++ {
 					runtime.Gosched()
+				}
+				if st.ReadAll {
+					enter()
+					v := a.(orda.Datatype).ToJSON()
+					leave()
+					atomic.AddInt64(&out.reads, 1)
+					if h := c20HalfApplied(wl.Kind, v); h != "" {
+						mu.Lock()
+						out.half = append(out.half, h)
+						mu.Unlock()
+					}
+					continue
+				}
+				if st.Pair != "" {
+					st.Tx = c20PairCalls(wl.Kind, st.Pair)
+					atomic.AddInt64(&out.pairs, 1)
 				}
 				if st.Call != nil {
 					enter()
@@ -340,6 +409,9 @@ func c20Check(wl c20Workload, w *sim.World, out *c20Outcome) error {
 	if len(out.panics) > 0 {
 		return fmt.Errorf("panic in a goroutine using the datatype: %s", out.panics[0])
 	}
+	if len(out.half) > 0 {
+		return fmt.Errorf("a goroutine read the datatype while another goroutine's transaction was half applied: %s", out.half[0])
+	}
 	rep := w.Reps[0]
 	rep.NoteEmitted()
 	ops := rep.Emitted
@@ -403,7 +475,8 @@ func c20Check(wl c20Workload, w *sim.World, out *c20Outcome) error {
 func testC20(t *testing.T, kind sim.Kind) {
 	col := stats.New("C20", t.Name(),
 		"generated workloads on ONE datatype instance: 2-8 real goroutines each running a drawn script of calls and transactions (bodies yield between calls, some fail), plus a goroutine that delivers prepared remote units and builds push packs; free-running Go scheduler with drawn Gosched yields; "+
-			"oracle: all goroutines finish within 20 s (else deadlock), no panic, queued operations have sequence numbers 1..n in order, one per successful call plus one header per committed transaction, no foreign header inside a unit, final state equals refmodel(queued + remote operations), counter equals the sum of successful deltas; "+
+			"among the steps: transactions of two calls that belong together (same tag under two keys / +1e6 and -1e6 / insert and delete of a marked head element) and reads of the whole state; "+
+			"oracle: all goroutines finish within 20 s (else deadlock), no panic, no read shows one call of a pair without the other, queued operations have sequence numbers 1..n in order, one per successful call plus one header per committed transaction, no foreign header inside a unit, final state equals refmodel(queued + remote operations), counter equals the sum of successful deltas; "+
 			"non-trivial = calls of >=2 goroutines overlapped in time AND a call started while another goroutine's transaction body was running (both measured with atomic counters); distinct = hash of the workload (the schedule itself is not controlled)")
 	col.Assume("schedule coverage is sampled: the Go scheduler decides the interleaving; a failing schedule may not reproduce from the workload alone")
 	checkProp(t, "C20", col, func(c *caseCtx) {
@@ -426,6 +499,9 @@ func testC20(t *testing.T, kind sim.Kind) {
 		}
 		if out.reads > 0 {
 			labels = append(labels, "reads-among-the-concurrent-calls")
+		}
+		if out.pairs > 0 {
+			labels = append(labels, "pair-transactions-and-whole-state-reads")
 		}
 		col.Case(out.overlap == 1 && out.txOverlap == 1, string(b), append(labels, "kind="+string(kind), fmt.Sprintf("goroutines=%d", len(wl.Scripts))), func() interface{} {
 			return map[string]interface{}{"kind": kind, "goroutines": len(wl.Scripts), "script_lengths": func() []int {
